@@ -28,10 +28,22 @@ AddOp == pc = "gen" /\ N < MaxOperands /\ \E o \in Ops : ops' = Append(ops, o) /
 Operand(i) == CASE i % 5 = 1 -> <<2, 1>> [] i % 5 = 2 -> <<3, 1>> [] i % 5 = 3 -> <<1, 2>> [] i % 5 = 4 -> <<2, 1>> [] OTHER -> <<3, 1>>
 Case == [in |-> [recs |-> <<>>, flat |-> [operands |-> [i \in 1..N |-> Operand(i)], ops |-> ops, open |-> open', close |-> close'],
                  evals |-> << [start |-> 1700000000, end |-> 1700000000, step |-> 0] >>, reps |-> 1]]
+\* the same chain with scalar literals for operands (arithmetic chains of two or three operands; never two literals as the
+\* operands of one operator): a literal operand is handled by another evaluation path, the grouping must not change
+ArithOnly == \A i \in DOMAIN ops : ops[i] \in {"add", "sub", "mul", "div", "mod", "pow"}
+LitOperand(i) == CASE i = 1 -> <<3, 1>> [] i = 2 -> <<6, 1>> [] OTHER -> <<4, 1>>
+LitPatterns == IF N = 2 THEN {<<FALSE, TRUE>>}
+               ELSE IF N = 3 /\ open' = 1 /\ close' = 2 THEN {<<FALSE, TRUE, TRUE>>, <<FALSE, TRUE, FALSE>>}
+               ELSE IF N = 3 /\ open' = 2 /\ close' = 3 THEN {<<TRUE, FALSE, TRUE>>, <<FALSE, FALSE, TRUE>>}
+               ELSE IF N = 3 THEN {<<FALSE, TRUE, FALSE>>, <<FALSE, FALSE, TRUE>>}
+               ELSE {}
+CaseLit(lits) == [in |-> [recs |-> <<>>, flat |-> [operands |-> [i \in 1..N |-> LitOperand(i)], ops |-> ops, open |-> open', close |-> close', lits |-> lits],
+                          evals |-> << [start |-> 1700000000, end |-> 1700000000, step |-> 0] >>, reps |-> 1]]
 Go == pc = "gen" /\ N >= 2 /\ pc' = "parsed"
       /\ \/ open' = 0 /\ close' = 0
          \/ \E a \in 1..N, b \in 1..N : a < b /\ ~(a = 1 /\ b = N) /\ open' = a /\ close' = b
       /\ UNCHANGED ops /\ PrintT(<<"CASE", ToJson(Case)>>)
+      /\ (ArithOnly => \A lits \in LitPatterns : PrintT(<<"CASE", ToJson(CaseLit(lits))>>))
 Next == AddOp \/ Go
 
 \* ---- trees over operand indices
